@@ -89,6 +89,17 @@ CHECKS["C20"] = dict(
     note="Trusted: TLC, the stepped engine (W2), exact binary time units in the replay. Assumption: no handler timeout elapses between a datagram's dispatch and the timeout scan of the same iteration. Real-thread preemption of the queues is not explored (C16 covers the locked counters).",
     design="§4 C20")
 
+CHECKS["C06"] = dict(
+    technique="AsyncEngine.tla model-checked by TLC at poll granularity (FIFO lock, retry/timeout/pause, consumers in arbitrary in-tick order, reply loss/lateness) + TLC trace validation of real connections with concurrent API callers under reply faults and closed gates",
+    text="TLC checks MutualExclusion, lock-holder = the only busy caller, attempts <= R, reply only after a transmission, failure only after R attempts and the call bound R*(T+P)+R+1 polls over all interleavings of two callers with lost and late replies. On the real stack 1..8 concurrent API calls (water care, reminders, key press, set value) run next to the ping/refresh/facade loops with seeded reply loss, delay and duplication, and with the freshness gate closed in the idle and in the active configuration; every send, queue put/mark/pop with the acting task, call start (with an independently computed gate) and return is logged in execution order and TLC validates: one request outstanding at a time, explicit calls served in arrival order, <= R fresh attempts, result consistent with what was popped, duration bound, nothing sent by a call whose gate was closed.",
+    note="Trusted: TLC, virtual loop, queue wrapper, harness decoding of verbs/sequence bytes, the freshness window 2 x PING_FREQUENCY as the meaning of 'answering pings'. Gates are read as evaluated at call start (the code checks once, before the lock); retransmissions after freshness expires mid-call (D11) are outside this reading and documented in DESIGN.md.",
+    design="§4 C06")
+CHECKS["C07"] = dict(
+    technique="AsyncEngine.tla dispatch invariants model-checked by TLC (CapablePopper, UnhandledOnlyMarked, NoHeadOfLine) + TLC's order-flip witness schedule reproduced on the real queue + TLC trace validation of real connections under junk / mis-addressed / malformed traffic and four wake-order policies",
+    text="TLC checks that only accepting consumers pop, Unhandled only pops what it marked a wake-up earlier, and no datagram heads the queue for more than 3 polls + stalls, under every in-tick order; its counterexample to 'Unhandled never discards a framed packet' (Packet before Unhandled in one tick, the reverse in the next) is imposed on the real consumers with the loop's rank script and must reproduce, while both stable orders must let the Packet consumer take the packet. Real connections receive seeded sequences of unknown, unsolicited, mis-addressed, malformed, water-care-error, RF-error and partial-update datagrams (with a client handler that suspends), with and without waiters; TLC validates FIFO single consumption, acceptance by the popping consumer, mark-before-Unhandled-pop, re-queue only of well-formed correctly addressed frames, head-of-line bound; state around mis-addressed traffic is compared directly.",
+    note="Trusted: TLC, virtual loop with scripted ranks, queue wrapper, harness classification of datagrams. 'A few polling intervals' = 3 polls + 12 ms.",
+    design="§4 C07")
+
 NOT_YET = {}
 
 
